@@ -99,6 +99,40 @@ Theorem C03_complete_needs_roots_parentless :
 Proof. exact c03_complete_needs_roots_parentless. Qed.
 Print Assumptions C03_complete_needs_roots_parentless.
 
+(* ... and SOUND also when the query has the unsuffixed group (the shape nova sends: resources spread over the providers
+   of one tree), still without sharing providers.  One hypothesis more: the unsuffixed group names every resource class
+   once (un_rcs_nodup) - derived for every accepted query string (C03_accepted_un_rcs_nodup: resources is a dict keyed by
+   class name); without it the statement is false on an abstract query (C03_no_sharing_needs_distinct_classes). *)
+From PV Require Import Proofs.C03u Proofs.C03uq.
+Theorem C03_no_sharing_sound : forall v q d a s,
+  rps_wf d -> no_sharing d -> parentless_root d -> caps_nonneg d ->
+  un_rcs_nodup q ->
+  candidates v q d = COk a s ->
+  forall c, In c a -> exists c', In c' (map (creq_view v) (spec_candidates v q d)) /\ same_creq c c' = true.
+Proof. exact c03_no_sharing_sound. Qed.
+Print Assumptions C03_no_sharing_sound.
+
+(* on this fragment the model never answers KeyError or an order-dependent result *)
+Theorem C03_no_sharing_answers : forall v q d,
+  rps_wf d -> no_sharing d -> parentless_root d -> un_rcs_nodup q ->
+  (exists e, candidates v q d = CErr e) \/ (exists a s, candidates v q d = COk a s).
+Proof. exact c03_no_sharing_answers. Qed.
+Print Assumptions C03_no_sharing_answers.
+
+Theorem C03_accepted_un_rcs_nodup : forall (tok_rp tok_agg tok_trait tok_rc tok_suffix : Parse.str -> Z) v kv q,
+  (forall a b : Parse.str, tok_rc a = tok_rc b -> a = b) ->
+  DecodeQC.decode_candidates tok_rp tok_agg tok_trait tok_rc tok_suffix v kv = Parse.POk q -> un_rcs_nodup q.
+Proof. exact c03u_accepted_un_rcs_nodup. Qed.
+Print Assumptions C03_accepted_un_rcs_nodup.
+
+Theorem C03_no_sharing_needs_distinct_classes :
+  exists v q d,
+    rps_wf d /\ no_sharing d /\ parentless_root d /\ caps_nonneg d /\ query_wf v q = true /\ ~ un_rcs_nodup q /\
+    exists a s, candidates v q d = COk a s /\ a <> [] /\
+      forall c, In c a -> forall c', In c' (map (creq_view v) (spec_candidates v q d)) -> same_creq c c' = false.
+Proof. exact c03u_needs_distinct_classes. Qed.
+Print Assumptions C03_no_sharing_needs_distinct_classes.
+
 (* REFUTED: the faithful model omits valid candidates *)
 (* 1. a sharing provider reachable from several anchors: the per-group result is a SET of allocation requests
       whose equality ignores the anchor, so one anchor survives and merges under the others are lost *)
